@@ -138,20 +138,37 @@ PROPS["C15"] = dict(
 )
 
 PROPS["C01"] = dict(
-    modules=["Hpbf.Props.C01"],
+    modules=["Hpbf.Props.C01", "Hpbf.Props.C01Opt"],
     theorems=t("Hpbf.C01", "C01_parse_ok_of_tree parse_forward parse_backward parse_never_interrupted parse_prefix "
-               "C01_odd_step_reaches_zero canonical_odd_loop_zeroes canonical_odd_loop_zeroes_src canonical_folded_loop_zeroes"),
+               "C01_odd_step_reaches_zero canonical_odd_loop_zeroes canonical_odd_loop_zeroes_src canonical_folded_loop_zeroes") +
+             t("Hpbf.C01Opt", "iter_eq geo_mul_pred tri_closed tri_loop tripCount_some tripCount_none tripCount_complete "
+               "tripInv_some tripInv_tripCount tripInv_mul tripInv_some_odd tripInv_none_iff geomSum_spec geomSum_fold "
+               "affine_iter affine_loop triStep_cases triStep_branch0 triStep_branch1 triStep_branch1_toNat triStep_branch2 "
+               "triStep_branch3 triStep_val_sound triStep_oddpart_no_half triStep_invvar_no_half triStep_invvar_sound "
+               "triStep_branch2_needs_exact_half"),
     streams=[dict(suite="irparse", quick=2000, thorough=100000, judge="parse"),
              dict(suite="irrun", quick=1500, thorough=60000, judge="program"),
              dict(suite="e2e", quick=2500, thorough=60000, thorough_seeds=4, judge="program"),
+             dict(suite="optarith", quick=1200, thorough=60000, judge="tie"),
+             dict(suite="optdse", quick=3000, thorough=120000, judge="tie"),
              dict(suite="levelcap", quick=400, thorough=20000, judge="const"),
-             dict(suite="irecho", quick=300, thorough=5000, judge="const")],
+             dict(suite="irecho", quick=300, thorough=5000, judge="tie")],
     corpus=["programs"], corpus_judge="program",
     scope="Level 0 is FULL: for every balanced program, environment and width (w >= 1) the IR produced by "
           "Program::parse, run by the IR interpreter model, has exactly the canonical event sequence, terminates iff "
           "the canonical run does, and every intermediate output is a canonical prefix (parse_forward/backward/prefix); "
-          "the folding of odd-step loops is justified for every width. Levels >= 1: partial, see not_proved.",
-    not_proved="optimize (levels 1..3) has no Lean model: its hash-order dependent plumbing is not ported. For levels >= 1 "
+          "the folding of odd-step loops is justified for every width. Levels >= 1: partial, see not_proved. The "
+          "ARITHMETIC the optimizer's loop analysis and loop motion rest on is proved for every width (OptArith, each "
+          "function recomputed on the arguments of every real call made while optimising the sampled programs): the "
+          "constant trip count m/(-inc) is exactly the number of iterations until the counter is 0 and `none` means "
+          "never (tripCount_some/none/complete); with an odd step the count is inv*x (tripInv_some); the square-and-"
+          "multiply geometric sum equals 1+m+..+m^(n-1) and x*m^n + c*geomSum is the value after n rounds of x=x*m+c "
+          "(geomSum_spec, affine_loop); each of the three halving alternatives of the triangular closed form equals the "
+          "sum the loop would accumulate (triStep_branch1..3), unconditionally for the two trip-count shapes the "
+          "optimizer produces (triStep_val_sound, triStep_invvar_sound), and a witness shows the halving of the trip "
+          "count would be wrong for any other shape (triStep_branch2_needs_exact_half).",
+    not_proved="optimize (levels 1..3) has no complete Lean model: its hash-order dependent plumbing (state tracking, "
+               "symbolic substitution, emission order) is not ported, only its arithmetic cores are. For levels >= 1 "
                "the universal statement is NOT discharged; it is checked per program by comparing IR interpreter, bytecode "
                "interpreter and JIT at levels 0,1,2,3,4,7 (limited and unlimited) with the PROVED canonical semantics, "
                "on structured programs that exercise trip counts and closed forms; 'levels above 3 behave like level 3' "
@@ -159,7 +176,10 @@ PROPS["C01"] = dict(
     rule="e2e: generated programs (token-level, IR-first structured with affine assignments in counted loops, roaming) "
          "x 4 widths x environments x IR interpreter/bytecode interpreter/JIT x levels {0,1,2,3,4,7} x {unlimited, "
          "limited 2^40}, each compared with the Lean canonical run (programs whose gate run exceeds 3000 loop "
-         "iterations are skipped and counted); irparse/irrun: parser and IR interpreter vs their models at level 0. "
+         "iterations are skipped and counted); irparse/irrun: parser and IR interpreter vs their models at level 0; "
+         "optarith: every traced call of the optimizer's arithmetic cores vs OptArith; optdse: every (program, analysis) "
+         "pair the optimizer's dead store elimination receives at levels 2,3 plus random IR with random analyses "
+         "(incl. malformed analysis shapes that must panic) vs OptDse.eliminate, exact IR equality. "
          "Non-trivial = at least one I/O event; distinct = distinct requests.",
     trusted_base=["Expr::evaluate as modelled in Hpbf/Expr.lean (tied by the C15 check)"],
 )
@@ -522,8 +542,8 @@ PROPS["C13"] = dict(
     modules=["Hpbf.Props.C11", "Hpbf.Props.C12"],
     theorems=t("Hpbf.C11", "check_no_bad check_run_not_bad check_temps_lt") + t("Hpbf.C12", "parse_invariant parseStep_unreachable_arm parse_unreachable_arm parse_ok_iff_balanced"),
     streams=[dict(suite="c13", quick=150, thorough=8000, judge="const"),
-             dict(suite="bcgen", quick=40, thorough=3000, judge="const"),
-             dict(suite="jitgen", quick=10, thorough=600, judge="const")],
+             dict(suite="bcgen", quick=40, thorough=3000, judge="tie"),
+             dict(suite="jitgen", quick=10, thorough=600, judge="tie")],
     extra=[c13_cross_process],
     scope="Proved: the parser model is total and its two defensive arms are unreachable (C12); every bytecode program "
           "accepted by the contract checker only contains operand forms the threaded interpreter implements (no "
@@ -539,4 +559,95 @@ PROPS["C13"] = dict(
          "contexts; the same in two separate processes (hashes compared); bcgen/jitgen: exact equality with the Lean "
          "generators. Distinct = distinct programs.",
     trusted_base=["machine code comparison masks the 8 address bytes of `mov rax, imm64; call rax` (they depend on the load address)"],
+)
+
+PROPS["C02"] = dict(
+    modules=["Hpbf.Props.C02", "Hpbf.Props.C02Emit", "Hpbf.Props.C02Dse", "Hpbf.Props.C11", "Hpbf.Props.C07"],
+    theorems=t("Hpbf.C02", "dse_run dse_behEqIO dsePre_iff_check deadStoreElim_cert deadStoreElim_preserves dsePre_of_emit "
+               "deadStoreElim_preserves_of_emit dse_stopped_tape_differs dse_not_obsEq' dse_stopped_tape_differs_reachable "
+               "dse_noMemZero_necessary dse_bookkeeping_necessary") +
+             t("Hpbf.C02", "translateE_factors emitOnly_eq noOnce_onceOk emit_forward emit_forward_noOnce emit_backward "
+               "emit_prefix emit_never_interrupted once_needs_hypothesis") +
+             t("Hpbf.C02", "run_fields_irrelevant stepI_reorderInst reorderInst_step parameterReordering_preserves "
+               "parameterReordering_run_eq stripNoops_preserves fuse_run recordBranchTargets_ok recordBranchTargets_spec "
+               "zeroingMoveDetection_preserves zeroingMoveDetection_preserves_of_pre translateE_eq_latePasses "
+               "late_passes_preserve late_passes_preserve_debug budget_zero_only_initially step_next_budget_ne_zero "
+               "run_budget_zero_iff runDebug_eq_run zmd_stopped_tape_differs zmd_target_guard_necessary memZero_order_matters") +
+             t("Hpbf.C11", "check_run_not_bad check_init_independent check_live_dead") +
+             t("Hpbf.C07", "bc_limited_done bc_limited_prefix bc_limited_enough bc_limited_terminates bc_divergent_never_finished"),
+    profiles=["debug", "release"],
+    streams=[dict(suite="bcgen", quick=60, thorough=4000, judge="tie"),
+             dict(suite="irgen", quick=1500, thorough=80000, judge="tie"),
+             dict(suite="bcrun", quick=60, thorough=3000, judge="bcrun"),
+             dict(suite="e2e", quick=1200, thorough=40000, thorough_seeds=3, judge="program")],
+    corpus=["programs"], corpus_judge="program",
+    scope="Proved on the exact Lean port of the generator and the bytecode machine: (1) the FIRST phase of translate "
+          "(analysis + value-numbering emission of every IR instruction, loops, ifs, fused scans, both fuse modes) "
+          "refines the IR semantics for EVERY IR block at every width: emit_forward / emit_backward (same events, tape, "
+          "pointer, environment for finished and I/O-stopped runs) and emit_prefix (unfinished runs are prefixes of each "
+          "other), under the hypothesis that a loop marked `once` is only reached with a non-zero condition (OnceOk; "
+          "proved necessary by a witness, implied by NoOnce); translateE_factors shows translate = emission ; DSE ; temp "
+          "allocation ; late passes. (1b) the local dead-store elimination pass preserves behaviour in lockstep (same fuel, "
+          "same budget; events, pointer, environment always equal, tape equal for finished runs — a run stopped by an I/O "
+          "failure between a removed store and its overwrite sees a different tape, witness proved) for every state "
+          "satisfying the decidable precondition DsePre, and the emission's output satisfies DsePre "
+          "(deadStoreElim_preserves, dsePre_of_emit); each part of DsePre is shown necessary by a witness. "
+          "(2) the three LATE passes preserve "
+          "behaviour for every bytecode program meeting their precondition — parameter reordering (runs are equal), "
+          "noop stripping with branch re-targeting (both directions, limited and unlimited), zeroing-move fusion given "
+          "the recorded branch targets (same events/pointer/budget; the tape may differ only after an I/O stop, witness "
+          "proved) — and their composition (late_passes_preserve); the debug (trampolined, budget tested before every "
+          "instruction) and release (tested at entry) dispatch loops compute the same result (runDebug_eq_run); "
+          "contract-checked bytecode never reaches an unimplemented form and is independent of uninitialised/dead "
+          "temporaries (C11); limited mode is a faithful prefix (C07).",
+    not_proved="the temporary allocation phase of translate preserving "
+               "behaviour (in progress), the composition of the phase theorems into one statement, totality of the emission (that the generator's panic sites are unreachable: every theorem takes "
+               "`emitOnly blk fuse = .ok p` as hypothesis), and that the optimizer only marks loops `once` when OnceOk holds, "
+               "are not theorems; they are established per program: translate's "
+               "output equals the pure Lean function BcGen.translate EXACTLY (also on random IR not reachable from the parser), "
+               "random loop-free IR executes identically on IR interpreter, bytecode interpreter and JIT and as the Lean IR "
+               "semantics says, the threaded interpreter equals Bc.run on real bytecode in BOTH build profiles, and end-to-end "
+               "events equal the proved canonical semantics",
+    rule="bcgen: bytecode text of translate vs BcGen.translate for generated programs x 4 widths x levels 0-3 x settings "
+         "(2,fuse) (11,no) (12,no) (3,fuse); irgen: random IR built directly (squares, repeated variables, zero stores, "
+         "simultaneous assignments up to 16, ifs, shifts): exact generator tie + execution of loop-free IR on three "
+         "executors vs Ir.run; bcrun: threaded interpreter vs Bc.run (events, window, remaining budget, final (size, "
+         "offset)); e2e: all back ends x levels vs canonical; harness built in debug AND release profile.",
+    trusted_base=["release builds rely on LLVM emitting tail calls in the threaded interpreter (observed, not proved)"],
+)
+
+
+PROPS["C03"] = dict(
+    modules=["Hpbf.Props.C03", "Hpbf.Props.C11"],
+    theorems=t("Hpbf.C03", "selector_sound_copy selector_sound_add selector_sound_sub selector_sound_mul selector_sound "
+               "selector_sound_on block_sound rel_satisfiable execAll_app encode_ne_nil f6_add_stack_imm_wrong "
+               "f6_add_big_imm_reg_wrong f6_add_big_imm_stack_wrong f6_mul_stack_mem_mem_wrong f6_mul_stack_self_wrong") +
+             t("Hpbf.C11", "check_live_dead check_init_independent check_window"),
+    streams=[dict(suite="jitgen", quick=25, thorough=2000, judge="tie"),
+             dict(suite="jitrun", quick=120, thorough=6000, judge="tie"),
+             dict(suite="irgen", quick=1500, thorough=80000, judge="tie"),
+             dict(suite="e2e", quick=1500, thorough=50000, thorough_seeds=3, judge="program")],
+    corpus=["programs", "jitforms"], corpus_judge="program",
+    scope="Proved for every width in {8,16,32,64}, every operand (all indices, offsets, immediates, live bitmaps): for each "
+          "copy/add/sub/mul bytecode instruction for which the selector emits code, executing that code in the x86 "
+          "semantics from a state related to the bytecode configuration (register temporaries = low w bits of r12..r11, "
+          "stack temporaries = [rsp+8t], tape = [rbp+..]) ends in a state related to the bytecode result, preserving "
+          "every temporary that is live or is the destination, and rbx/rbp/rsp (selector_sound); straight-line blocks "
+          "compose (block_sound). The five arms repaired in F6 are proved wrong in their original form on concrete "
+          "states. The machine code is EXACTLY the encoding of the modelled instruction lists (jitgen tie), and the x86 "
+          "semantics reproduces this CPU on every operand-kind combination (jitsem).",
+    not_proved="control flow (brz/brnz relocation, limit check), Mov with its probe sequence, the runtime calls of inp/out "
+               "(register saving, stack alignment), prologue/epilogue and the whole-program simulation are NOT theorems: "
+               "they are covered by the exact code-generation tie, by executing the bytecode of generated programs "
+               "(incl. wide ones with stack temporaries) on the CPU vs Bc.run, and by end-to-end comparison with the "
+               "proved canonical semantics; that generated bytecode satisfies the side conditions (liveness chain) "
+               "follows per program from the verified checker (C11), not yet linked in Lean",
+    rule="jitgen: machine-code bytes of print_mc vs JitGen.compile for ALL 126 400 one-instruction forms (dst x src x src "
+         "kinds x 5 live bitmaps x 4 widths, incl. the forms for which the Rust panics with unimplemented!) and for program "
+         "bytecode in three modes; jitrun: 22 864 normal-form one-instruction experiments EXECUTED by the JIT on this CPU "
+         "(operands initialised, destination and live sources observed through the tape) vs Bc.run, the same CPU results "
+         "vs the x86 semantics (jitsem), and whole programs (1/3 wide programs that need > 11 live values); irgen: random "
+         "IR executed on all three executors; e2e: vs canonical incl. wide programs. Distinct = distinct requests.",
+    trusted_base=["X86Sem is my reading of the ISA at the JIT's abstraction (validated against this CPU on every run)",
+                  "shim addresses are masked in the machine-code comparison"],
 )
